@@ -862,6 +862,11 @@ def entries(real):
               M.ClientMasterKey, lambda o: seqv(N(o.cipher), B(o.clear_key), B(o.encrypted_key), B(o.key_argument)),
               hstype=H2.client_master_key, hs_len=False, custom_values=cmk_values, custom_lens=lambda d: [(3, 2), (5, 2), (7, 2)]))
 
+    for nm, cls, ht in (("ssl2ClientFinished", M.ClientFinished, H2.client_finished),
+                        ("ssl2ServerFinished", M.ServerFinished, H2.server_finished)):
+        add(Entry(nm, cls.__name__, (lambda v, cls=cls: cls().create(_ba(v[1]))), cls, lambda o: B(o.verify_data),
+                  hstype=ht, hs_len=False, exact=True, model_name="ssl2Finished"))
+
     # ---- CompressedCertificate: framing in the model, (de)compression and the inner Certificate abstract
     # (lossy: the compressed blob is re-created by write(); zlib tolerates bytes after the end of its stream)
     def cc_values(run):
